@@ -98,9 +98,15 @@ package templ
 //@   assert {C13} before GetChildren().Render#1: slot() == nil
 //@   ensures {C13} implies(err == nil, slot() == nil)
 
+// C12: a once handle's content is rendered only if the handle is not yet recorded in this context, and the
+// handle is recorded before the content is rendered.
 //@ func (*OnceHandle) Once$1 [C10, C12, C13]
 //@   requires o != nil
 //@   implements Component.Render
+//@   ensures {C12} has(cv().onceHandles, o)
+//@   ensures {C12} implies(has(old(cv().onceHandles), o), err == nil && doc(w) == old(doc(w)))
+//@   assert {C12} before o.c.Render#1: has(cv().onceHandles, o) && !has(old(cv().onceHandles), o)
+//@   assert {C12} before GetChildren().Render#1: has(cv().onceHandles, o) && !has(old(cv().onceHandles), o)
 //@   assert {C13} before GetChildren().Render#1: slot() == nil
 //@   ensures {C13} implies(err == nil, slot() == nil)
 
@@ -207,8 +213,10 @@ package templ
 //@   use before sb.WriteRune#3: dq_close(sb.String())
 
 //@ func JSFuncCall [C03]
+//@   pure
 //@   ensures inL(result.Call, DQ_ATTR_SAFE)
 //@ func JSUnsafeFuncCall [C03]
+//@   pure
 //@   ensures inL(result.Call, DQ_ATTR_SAFE)
 //@   use return.1: html_attr_safe(html.EscapeString(string(js)))
 
@@ -282,3 +290,32 @@ package templ
 //@   loop 1 invariant doc(w) == old(doc(w)) && failedDuring == old(failedDuring)
 //@   loop 1 invariant {C12} v.ss == regFold(scripts, old(cv().ss), iter, "script_", Name)
 //@   loop 1 invariant {C12} sb.String() == emitFold(scripts, old(cv().ss), iter, "script_", Name, Function)
+
+// CSS classes: emit-if-absent-then-record at the emission site, registry monotone. (The positive half for
+// every container form - "every use still gets its rule" - is not under contract: the function recurses
+// over heterogeneous containers.)
+//@ func renderCSSItemsToBuilder [C12]
+//@   requires sb != nil && v != nil
+//@   modifies *sb, v.ss
+//@   ensures monotone(old(v.ss), v.ss)
+//@   ensures isPrefix(old(sb.String()), sb.String())
+//@   loop 1 invariant monotone(old(v.ss), v.ss) && isPrefix(old(sb.String()), sb.String())
+//@   loop 2 invariant monotone(old(v.ss), v.ss) && isPrefix(old(sb.String()), sb.String())
+//@   assert before sb.WriteString#1: !has(v.ss, cat("class_", ccc.ID))
+//@   assert after v.addClass#1: has(v.ss, cat("class_", ccc.ID))
+
+//@ func RenderCSSItems [C12, C10]
+//@   modifies doc(w), failedDuring, cv().ss
+//@   ensures isPrefix(old(sink(w)), sink(w))
+//@   ensures implies(err == nil, isPrefix(old(doc(w)), doc(w)) && failedDuring == old(failedDuring))
+//@   ensures implies(err != nil, failedDuring)
+//@   ensures implies(old(failedDuring), failedDuring)
+//@   ensures {C12} monotone(old(cv().ss), cv().ss)
+
+// The middleware registers every class of the global stylesheet before the next handler runs, so that
+// components never inline them.
+//@ func (CSSMiddleware) ServeHTTP [C12]
+//@   requires r != nil && r.URL != nil
+//@   modifies cv().ss, tr(w), failedDuring
+//@   loop 1 invariant monotone(old(cv().ss), v.ss) && forall(k, 0, iter, has(v.ss, cat("class_", cssm.CSSHandler.Classes[k].ID)))
+//@   assert before cssm.Next.ServeHTTP#1: forall(k, 0, len(cssm.CSSHandler.Classes), has(v.ss, cat("class_", cssm.CSSHandler.Classes[k].ID)))
